@@ -289,12 +289,32 @@ def tally(dist, case, real_out):
         inc("deferred_default_write")
 
 
-def run_real(exe, lines, shards=4):
-    """Few processes (process creation is the dominant cost on a loaded machine); falls back to
-    rtmock.run, which survives aborts, when a shard dies."""
+def run_real(exe, lines, shards=4, max_aborts=12):
+    """Few processes (process creation is the dominant cost on a loaded machine).  When a shard dies (a
+    panic inside an extern "C" frame aborts the process; the driver's watchdog aborts a scenario that does
+    not terminate) the lines are re-run sequentially, restarting after each abort; after `max_aborts`
+    aborts the remaining lines are reported as `ABORT:skipped` (only a broken runtime gets there)."""
     if not lines:
         return []
     try:
-        return vf.run_filter([exe], lines, shards=min(shards, max(1, len(lines) // 64)) or 1, timeout=900)
+        return vf.run_filter([exe], lines, shards=min(shards, max(1, len(lines) // 64)) or 1, timeout=600)
     except RuntimeError:
-        return rtmock.run(exe, lines, timeout=900)
+        pass
+    out, i, aborts = [], 0, 0
+    while i < len(lines):
+        if aborts >= max_aborts:
+            out += ["ABORT:skipped"] * (len(lines) - i)
+            break
+        rc, so, se = vf.sh2([exe], input="\n".join(lines[i:]) + "\n", timeout=600)
+        got = so.split("\n")
+        if got and got[-1] == "":
+            got.pop()
+        got = got[:len(lines) - i]
+        out += got
+        i += len(got)
+        if i < len(lines):
+            last = [l for l in se.strip().split("\n") if l.strip()]
+            out.append("ABORT:" + (last[-1].strip().replace(" ", "_") if last else "rc=%s" % rc))
+            i += 1
+            aborts += 1
+    return out
